@@ -91,6 +91,13 @@ def fm_track(track, side, sectors, order=None, layout=None, track_bytes=3125, he
             put(b)
         put(crc >> 8)
         put(crc & 0xFF)
+        if q.get("id_only"):
+            # an ID field with no record behind it: a short gap, then the next sector follows at once
+            for _ in range(q.get("id_gap", 3)):
+                put(0xFF)
+            if fieldmap is not None:
+                fieldmap.append({"sector": sec, "id": (idpos, idpos + 7 * 16), "data": (len(cells), len(cells))})
+            continue
         for _ in range(lay["gap2"]):
             put(0xFF)
         for _ in range(lay["sync"]):
@@ -156,6 +163,12 @@ def mfm_track(track, side, sectors, order=None, layout=None, track_bytes=6250, h
         w.byte(crc >> 8)
         w.byte(crc & 0xFF)
         idend = len(w.cells)
+        if q.get("id_only"):
+            for _ in range(q.get("id_gap", 3)):
+                w.byte(0x4E)
+            if fieldmap is not None:
+                fieldmap.append({"sector": sec, "id": (idpos, idend), "data": (idend, idend)})
+            continue
         for _ in range(lay["gap2"]):
             w.byte(0x4E)
         for _ in range(lay["sync"]):
